@@ -199,6 +199,26 @@ Proof.
   vm_compute in B. discriminate B.
 Qed.
 
+(* ---- relative form in binary64: the documented closing Line of rounding-error
+   length after a 'Z' that follows a curve (repaired serialiser, which writes
+   the closing curve): kinds and order are those of C01_shape with cl = [KLine] ---- *)
+Definition pR : list (seg float) :=
+  [Line (0x1.3cccccccccccdp+3, -0x1.ccccccccccccdp+1)%float (0x1.acccccccccccdp+2, -0x1.1333333333333p+3)%float;
+   Cubic (0x1.acccccccccccdp+2, -0x1.1333333333333p+3)%float (-0x1.799999999999ap+2, -0x1.c666666666666p+2)%float
+         (-0x1.999999999999ap-2, 0x1.0cccccccccccdp+1)%float (0x1.3cccccccccccdp+3, -0x1.ccccccccccccdp+1)%float].
+Example C01_rel_closing_line_float :
+  path_wf NumF pR = true
+  /\ match roundtrip NumF false false true true true false true true pR with
+     | Ok q => map shape_of q = [KLine; KCubic; KLine]
+               /\ match last q (Line (0,0)%float (0,0)%float) with
+                  | Line s e => PrimFloat.eqb (fst s) (fst e) = true          (* same abscissa *)
+                                /\ PrimFloat.sub (snd s) (snd e) = 0x1p-51%float (* one ulp of drift *)
+                  | _ => False end
+     | Err _ => False end
+  (* in absolute form the same path round-trips exactly *)
+  /\ rt_ok NumF (roundtrip NumF false false true true true false true false pR) pR = true.
+Proof. vm_compute. repeat split. Qed.
+
 (* ---- exact rationals for the structural witnesses ---- *)
 Definition qz (n : Z) : Qc := Q2Qc (inject_Z n).
 Definition P (a b : Z) : Cplx Qc := (qz a, qz b).
@@ -328,6 +348,7 @@ Print Assumptions C01_abs_ST_fixed_binary64.
 Print Assumptions C01_abs_fixed_binary64.
 Print Assumptions C01_ST_float_refuted.
 Print Assumptions C01_reflect_law_float_refuted.
+Print Assumptions C01_rel_closing_line_float.
 Print Assumptions C01_closeZ_closing_curve_refuted.
 Print Assumptions C01_closeZ_single_curve_refuted.
 Print Assumptions C01_smooth_after_moveto_refuted.
